@@ -109,7 +109,21 @@ func (s *Solver) roundTrip(cmd string) []string {
 // CheckSat returns "sat", "unsat" or "unknown" (errors count as unknown).
 func (s *Solver) CheckSat() string {
 	t0 := time.Now()
+	// hard wall-clock limit: z3's own :timeout is not honoured inside some tactics
+	hard := time.Duration(s.timeMs)*time.Millisecond*3 + 5*time.Second
+	killer := time.AfterFunc(hard, func() {
+		if s.cmd != nil && s.cmd.Process != nil {
+			s.cmd.Process.Kill()
+		}
+	})
 	lines := s.roundTrip("(check-sat)")
+	killer.Stop()
+	if s.dead {
+		atomic.AddInt64(&statSolverNs, int64(time.Since(t0)))
+		atomic.AddInt64(&statQueries, 1)
+		atomic.AddInt64(&statUnknown, 1)
+		return "dead"
+	}
 	atomic.AddInt64(&statSolverNs, int64(time.Since(t0)))
 	atomic.AddInt64(&statQueries, 1)
 	res := "unknown"
